@@ -194,6 +194,7 @@ class Engine(CoreMixin, ExprMixin, CallMixin, StmtMixin, BuiltinMixin):
         try:
             st = self.entry_state(contract, fi)
             entry_env = dict(st.env)
+            self.spec_state = st
             sp0 = SpecEval(self, entry_env, glob=fi.glob)
             pre = sp0.compile_bool(contract.requires)
             st.assume(pre)
